@@ -234,7 +234,7 @@ func Families(tier string) []Family {
 	// before or after the commands are declared (C07)
 	{
 		f := Family{Name: "modes"}
-		toks := Ts("-xy", "-xyz", "-xys", "-xys=v", "-s=v", "-sv", "-é", "-üv", "-xq", "--xy", "--s=v", "v", "-x", "-s", "-sx", "cmd")
+		toks := Ts("-xy", "-xyz", "-xys", "-xys=v", "-s=v", "-sv", "-é", "-üv", "-xq", "--xy", "--s=v", "v", "-x", "-s", "-sx", "-s\xffv", "cmd")
 		for mode := 0; mode < 3; mode++ {
 			for _, um := range []int{0, 2} {
 				for _, late := range []bool{false, true} {
